@@ -153,6 +153,34 @@ impl<'de> Deserialize<'de> for Bytes {
     }
 }
 
+/// Typed data pushed through size thresholds: long strings, long sequences, maps with many
+/// keys, long tuples of options.
+pub fn pumped(rep: &mut Report, tier: Tier) {
+    let cap = tier.pick(4097usize, 65537);
+    let ns = refmodel::pump::thresholds(cap);
+    let count = ns.len();
+    let t = explore::par_tally(ns, |n, t| {
+        let s: String = (0..n).map(|i| if i % 31 == 5 { '\u{e9}' } else if i % 53 == 11 { '"' } else { 'a' }).collect();
+        check_datum(&s, "String (pumped)", false, t);
+        check_datum(&St { f: s.clone(), g: 1 }, "struct with a long string", false, t);
+        check_datum(&BTreeMap::from([(s.clone(), 1u8)]), "map with a long key", false, t);
+        let v16: Vec<u16> = (0..n).map(|i| (i * 257) as u16).collect();
+        check_datum(&v16, "Vec<u16> (pumped)", false, t);
+        let vopt: Vec<Option<bool>> = (0..n).map(|i| if i % 3 == 0 { None } else { Some(i % 2 == 0) }).collect();
+        check_datum(&En::Tup(vopt, 1), "tuple variant holding a long Vec<Option<bool>>", false, t);
+        if n <= 16385 {
+            let m: BTreeMap<String, u16> = (0..n).map(|i| (format!("key-{i:05}"), i as u16)).collect();
+            check_datum(&m, "BTreeMap<String,u16> (pumped)", false, t);
+            let mi: BTreeMap<u32, Vec<u8>> = (0..n).map(|i| (i as u32 * 65537, vec![i as u8])).collect();
+            check_datum(&St { f: mi, g: 2 }, "BTreeMap<u32,Vec<u8>> (pumped)", false, t);
+        }
+        check_datum(&Bytes((0..n).map(|i| i as u8).collect()), "bytes (pumped)", false, t);
+        t.nontrivial(&("pumped", n));
+    });
+    rep.bounds["pumped"] = json!({"sizes": count, "cap": cap, "shapes": ["String", "struct field", "map key", "Vec<u16>", "Vec<Option<bool>> in a tuple variant", "BTreeMap<String,u16>", "BTreeMap<u32,Vec<u8>>", "bytes"]});
+    rep.absorb(t);
+}
+
 fn representations(t: &mut Tally) {
     for x in [-128i8, -1, 0, 127] {
         for s in ["", "a", "t", "\u{1f600}"] {
@@ -484,6 +512,7 @@ pub fn run(rep: &mut Report, tier: Tier) {
     representations(&mut t);
     rep.absorb(t);
 
+    pumped(rep, tier);
     // chars: every scalar value as value and as key
     let blocks: Vec<u32> = (0..0x110000u32 / 0x400).collect();
     let t = explore::par_tally(blocks, |b, t| {
